@@ -16,6 +16,9 @@ pub mod traversal;
 
 #[doc(hidden)]
 pub mod pinned;
+#[cfg(ast_grep_verif)]
+#[doc(hidden)]
+pub mod verif_hook;
 
 mod match_tree;
 mod node;
